@@ -6,6 +6,7 @@
 (* size-reduced (||(F,G)||_inf <= q (n+1) (||(f,g)||_inf + 1)) is REPORTED in the detail field only: at deep levels the   *)
 (* big-integer Babai loop sometimes stops early (observed: 354-bit answers for 50-bit inputs); the equation still holds   *)
 (* and key generation copes by re-sampling, so no listed property is affected.                                     *)
+(*  {"ev":"karatsuba","n","a","b","status","prod"}: the big-integer Karatsuba product (lift step) = the schoolbook product.   *)
 (* "none" is legitimate only if the level-1 resultants are not coprime (checked at the bottom level n = 1: gcd # 1).   *)
 EXTENDS BigNat, TraceLib
 VARIABLES l, bad
@@ -26,8 +27,14 @@ QBig == [neg |-> FALSE, mag |-> BFromSmall(12289)]
 MaxMag(v) == FoldLeft(LAMBDA acc, x : IF BLt(acc, x.mag) THEN x.mag ELSE acc, <<>>, v)
 \* gcd of two naturals (Euclid by repeated remainder; bottom level only)
 BGcd(a, b) == LET r == FoldRange(LAMBDA st, k : IF st.b = <<>> THEN st ELSE [a |-> st.b, b |-> BDivMod(st.a, st.b).r], [a |-> a, b |-> b], 1, 3000) IN r.a
+\* full (unreduced) product of two signed big-integer vectors of length n: length 2n - 1
+SFullMul(a, b) ==
+  LET n == Len(a) IN
+  Arr(2 * n - 1, LAMBDA k : FoldRange(LAMBDA acc, i : IF k - i + 1 >= 1 /\ k - i + 1 <= n THEN SAdd(acc, SMul(a[i], b[k - i + 1])) ELSE acc, SZero, 1, n))
 Judge(e) ==
-  IF e.status = "panic" THEN [ok |-> FALSE, branch |-> "panic", detail |-> <<e.n>>]
+  IF e.ev = "karatsuba" THEN
+    [ok |-> e.status = "some" /\ e.prod = SFullMul(e.a, e.b), branch |-> "karatsuba-n" \o ToString(e.n), detail |-> <<Len(e.prod)>>]
+  ELSE IF e.status = "panic" THEN [ok |-> FALSE, branch |-> "panic", detail |-> <<e.n>>]
   ELSE IF e.status = "none" THEN
     \* only judged at the bottom of the tower, where the reason is decidable: the resultants must not be coprime
     [ok |-> e.n > 1 \/ BGcd(e.f[1].mag, e.g[1].mag) # <<1>>, branch |-> "none-n" \o ToString(e.n), detail |-> <<>>]
